@@ -485,3 +485,53 @@ Proof.
   exists e. split; [reflexivity|]. split; [exact Hd|]. intro k. rewrite (Hw k).
   apply sumQ_sum_eval. intros gi Hgi. apply (input_samples s grads gi Hok Hgi).
 Qed.
+
+(* ---------- the result is itself a raster-sampled gradient ---------- *)
+Lemma zip_idx_length l : forall k, length (zip_idx k l) = length l.
+Proof. induction l as [|x l IH]; intro k; [reflexivity|]. cbn. rewrite IH. reflexivity. Qed.
+
+Lemma zip_idx_nth l : forall k j, (j < length l)%nat ->
+  nth j (zip_idx k l) (0%Z, 0) = ((k + Z.of_nat j)%Z, nth j l 0).
+Proof.
+  induction l as [|x l IH]; intros k j Hj; [cbn in Hj; lia|].
+  destruct j as [|j]; cbn [zip_idx nth].
+  - rewrite Z.add_0_r. reflexivity.
+  - rewrite IH by (cbn in Hj; lia). f_equal. lia.
+Qed.
+
+Lemma diffs_nonempty_length (w : list Q) : diffs w <> [] -> (2 <= length w)%nat.
+Proof. destruct w as [|a [|b w]]; cbn; try congruence; lia. Qed.
+
+Lemma make_arb_ArbOk s mg ms w d f l g : make_arb s mg ms w d f l = OK g ->
+  exists e, g = GExt e /\ eg_delay e = d /\ eg_wf e = w /\ ArbOk (s_raster s) e.
+Proof.
+  unfold make_arb. destruct (diffs w) eqn:Ed; [discriminate|].
+  destruct (Qgtb _ _); [discriminate|]. destruct (Qgtb _ _); [discriminate|].
+  intro H. injection H as <-. eexists. split; [reflexivity|]. split; [reflexivity|]. split; [reflexivity|].
+  assert (Hlen : (2 <= length w)%nat) by (apply diffs_nonempty_length; rewrite Ed; discriminate).
+  unfold ArbOk. cbn [eg_tt eg_wf eg_shape_dur].
+  split; [rewrite map_length, zip_idx_length; reflexivity|]. split; [lia|]. split; [|reflexivity].
+  intros j Hj.
+  rewrite (nth_indep _ 0 ((fun kx : Z * Q => (inject_Z (fst kx) + (1 # 2)) * s_raster s) (0%Z, 0)))
+    by (rewrite map_length, zip_idx_length; exact Hj).
+  rewrite (map_nth (fun kx : Z * Q => (inject_Z (fst kx) + (1 # 2)) * s_raster s)).
+  rewrite zip_idx_nth by exact Hj. cbn [fst]. unfold ctr. rewrite Z.add_0_l. reflexivity.
+Qed.
+
+(* Statement with the rendering of the result on the left: at every raster centre (all k >= 0,
+   counted from the smallest delay) the returned gradient equals the sum of the inputs *)
+Theorem add_raster_path_sum_at_centres_eval s mg ms grads g :
+  add_gradients s mg ms grads = OK (P_raster, g) -> RasterInputsOk s grads ->
+  let cd := minl (map g_delay grads) in
+  g_delay g = cd /\
+  forall k : nat, eval (to_pwl g) (cd + ctr (s_raster s) k)
+                  == sum_eval (map to_pwl grads) (cd + ctr (s_raster s) k).
+Proof.
+  intros H Hok cd.
+  destruct (add_gradients_raster_inv _ _ _ _ _ H) as (mg' & ms' & Hm).
+  destruct (make_arb_ArbOk _ _ _ _ _ _ _ _ Hm) as (e & -> & Hd & Hw & Harb).
+  destruct (add_raster_path_sum_at_centres _ _ _ _ _ H Hok) as (e' & He' & _ & Hs).
+  injection He' as <-. cbn [g_delay]. split; [exact Hd|]. intro k.
+  fold cd in Hd. rewrite <- Hd at 1.
+  rewrite (arb_eval_centre (s_raster s) e (rio_raster _ _ Hok) Harb k). apply Hs.
+Qed.
